@@ -476,8 +476,9 @@ fn eval(case: &Sx, out: &mut String) -> Option<()> {
             }
         },
 
-        ("sat", [e, vs]) => {
-            let r = eval_e(e)?;
+        ("sat", [e, vs]) | ("c01", [e, _, vs]) => {
+            // `c01` carries the syntax tree of the text for the model side; the crate only sees the text
+            let r = if head == "c01" { Some(Range::parse(e.string()?).ok()) } else { eval_e(e) }?;
             let vs = get_versions(vs)?;
             match r {
                 None => out.push_str("(none)"),
